@@ -10,7 +10,8 @@ from specs.make import mk_recipe, mk_assign, mk_target, mk_dep, mk_call_arg, N
 from contracts.posix_shell import frag, has_crlf, has_char, real_sh
 
 import bfg9000.backends.make.syntax as msyn
-from bfg9000.safe_str import shell_literal, literal
+from bfg9000.safe_str import shell_literal, literal, jbos
+from contracts import fragments as FR
 from bfg9000.backends.make.syntax import Syntax
 
 BS = ord('\\')
@@ -228,19 +229,43 @@ class Write(Contract):
     target = 'bfg9000/backends/make/syntax.py::Writer.write'
     properties = ('C01', 'C04')
 
+    SYNTAXES = ('shell', 'clean', 'function', 'target', 'dependency')
+
     def cases(self):
-        return ['%s/%s' % (k, sx) for k in make_write_kinds()
-                for sx in ('shell', 'clean', 'function', 'target', 'dependency')]
+        cs = ['%s/%s' % (k, sx) for k in make_write_kinds() for sx in self.SYNTAXES]
+        cs += ['jbos/%s/%s' % (sx, sq) for sx in self.SYNTAXES for sq in ('quote', 'inner', 'none')]
+        return cs
+
+    def loops(self):
+        return {('Writer.write', 1): FR.jbos_loop_invariant('make', self)}
+
+    def is_jbos(self, a):
+        return isinstance(a.thing, Obj) and a.thing.cls is jbos
+
+    def apply_at_call(self, I, bound, site, frame):
+        thing = bound['thing']
+        if isinstance(thing, Sym) and isinstance(thing.ty, tuple) and thing.ty[0] == 'opaque':
+            fns = FR.frag_fns('make', bound['syntax'], FR.sq_tag(bound.get('shell_quote')))
+            st = bound['self'].attrs['stream']
+            st.buf = M.mk_str(z3.Concat(M.sym_str(st.buf), fns.Wt(thing.e)))
+            return M.mk_bool(fns.We(thing.e))
+        return Contract.apply_at_call(self, I, bound, site, frame)
 
     def case_in_property(self, case, pid):
         sx = case.split('/')[1]
         return sx in {'C01': ('shell', 'clean', 'function'), 'C04': ('target', 'dependency', 'function')}.get(pid, (sx,))
 
     def params(self, cx, case):
-        kind, sx = case.split('/')
+        kind, sx = case.split('/')[:2]
         buf0 = z3.Const('buf0', T.Str)
         cx.ghost('buf0', buf0)
         selfv = Obj(msyn.Writer, {'stream': PStream(Sym(buf0, 'str')), 'path_vars': None})
+        self.cur_sq = 'quote'
+        if kind == 'jbos':
+            self.cur_sq = case.split('/')[2]
+            bits = z3.Const('bits', FR.Bits)
+            thing = Obj(jbos, {'_jbos__bits': Sym(bits, FR.BITS_TY)})
+            return {'self': selfv, 'thing': thing, 'syntax': Syntax[sx], 'shell_quote': FR.sq_fn(self.cur_sq)}
         if kind == 'str':
             thing = cx.str('thing')
         elif kind == 'shell_literal':
@@ -254,6 +279,8 @@ class Write(Contract):
         return M.sym_str(t.attrs['string']) if isinstance(t, Obj) else M.sym_str(t)
 
     def requires(self, a):
+        if self.is_jbos(a):
+            return z3.BoolVal(True)
         s = self.content(a)
         if isinstance(a.thing, Obj) and a.thing.cls is literal:
             return z3.BoolVal(True)
@@ -264,6 +291,13 @@ class Write(Contract):
         return z3.Not(has_crlf(s))
 
     def ensures(self, a, r):
+        if self.is_jbos(a):
+            fns = FR.frag_fns('make', a.syntax, FR.sq_tag(a._d.get('shell_quote')))
+            bits = a.thing.attrs['_jbos__bits'].e
+            n = z3.Length(bits)
+            buf = M.sym_str(a.self.attrs['stream'].buf)
+            return {'text_is_concatenation_of_fragment_texts': buf == z3.Concat(a.buf0, fns.CW(bits, n)),
+                    'flag_is_disjunction_of_fragment_flags': T.zbool(M.lift(r)) == fns.OE(bits, n)}
         w = written(a.self, a.buf0)
         s = self.content(a)
         t = a.thing
@@ -296,6 +330,11 @@ class Write(Contract):
 
     def result_value(self, I, a):
         return fresh_sym('mw_escaped', 'bool')
+
+    def effects(self, I, a):
+        st = a.self.attrs['stream']
+        a.buf0 = M.sym_str(st.buf)
+        st.buf = M.mk_str(z3.Concat(M.sym_str(st.buf), T.fresh('mw_text', T.Str)))
 
     def native_params(self, case):
         return ['thing'] if case.startswith('str/') else None
